@@ -27,8 +27,42 @@ def conv_conformance(trials=1500, seed=0):
     return bad
 
 
+def corr_conformance(trials=800, seed=3):
+    from scipy.ndimage import correlate1d
+    from ndvc.overlay import sym_correlate1d
+    from ndvc.sym import R, C
+    import z3
+    rng = np.random.default_rng(seed)
+    bad = 0
+    for t in range(trials):
+        n = int(rng.integers(1, 10)); L = int(rng.integers(1, 7))
+        origin = int(rng.integers(-(L // 2), (L - 1) // 2 + 1)) if L > 1 else 0
+        a = rng.integers(-5, 6, size=(n, 2)).astype(float)
+        cw = t % 2 == 1
+        w = rng.integers(-4, 5, size=L).astype(float) + (1j * rng.integers(-3, 4, size=L) if cw else 0)
+        ref = correlate1d(a, w, axis=0, origin=origin)
+        sa = np.empty(a.shape, dtype=object)
+        for idx in np.ndindex(a.shape):
+            sa[idx] = R(int(a[idx]))
+        sw = [C(R(int(v.real)), R(int(v.imag))) if cw else R(int(v.real)) for v in w]
+        got = np.asarray(sym_correlate1d(sa, sw, axis=0, origin=origin))
+
+        def val(v):
+            from ndvc.sym import lift
+            v = lift(v)
+            if isinstance(v, C):
+                return complex(float(z3.simplify(v.re.t).as_fraction()), float(z3.simplify(v.im.t).as_fraction()))
+            return float(z3.simplify(v.t).as_fraction())
+        gv = np.array([[val(v) for v in row] for row in got])
+        if not np.allclose(ref, gv, atol=1e-12, rtol=0):
+            bad += 1
+    return bad
+
+
 def main():
-    bad = conv_conformance()
+    badc = corr_conformance()
+    print('selftest: correlate1d contract (real and complex weights) vs scipy: %d mismatches' % badc)
+    bad = conv_conformance() + badc
     print('selftest: convolve1d contract vs scipy: %d mismatches' % bad)
     from scipy import special
     import math
